@@ -426,6 +426,13 @@ var firstCallShapes = []struct {
 	{"handler-returns-early-rendezvous", "sssshR", "rs", true},
 	{"handler-returns-early-no-answer-rendezvous", "ssshR", "r", true},
 	{"handler-returns-early-buffered", "sssshR", "rs", false},
+	// the handler has returned (its end of stream has arrived) before the client half-closes; the client
+	// never receives, it half-closes, closes and moves on
+	{"halfclose-after-handler-returned-never-receives", "sqhc", "r", false},
+	{"halfclose-twice-after-handler-returned-never-receives", "sqhhc", "rs", false},
+	// the handler half-closes by itself after its answer (the SendAndClose pattern) and then fails
+	{"handler-halfcloses-then-fails", "sshR", "Rsh!", false},
+	{"handler-halfcloses-then-returns", "shR", "rsh", false},
 	// a unary call whose request the client's own encoder rejects: the stream exists already, nothing but its close reaches the server
 	{"unary-request-fails-to-marshal", "!", "rs", false},
 	// the receiving side of the client goes through the raw entry point
